@@ -240,14 +240,21 @@ CHECKS["C03"] = dict(
 )
 
 CHECKS["C10"] = dict(
-    text="PARTIAL proof. Proved (package layer): a document clone holds under every name what the original holds, whatever had been cached, edited, replaced or "
-    "deleted before (clone_equal_at_birth), nothing is left on disk only, saving the clone writes what saving the original writes, a clone of a clone too. "
-    "Independence is true by construction in a pure model and is NOT claimed from it. Decided by the harness: tables after C01 histories (clone, clone of clone), "
-    "rows, cells, XML parts, documents after C03 histories; cloning leaves the original unchanged; equal at birth; 2..6 operations interleaved on original and "
-    "clone with the untouched twin observed after each one (serialisation, reads, semantic view of parts); absolute XPath queries from a copy see its own tree "
-    "only; both twins agree with their own reference (plain grid / ledger) at the end; the model follows the document histories in two slots.",
-    note=PKG_NOTE + "Element / row / cell / table clones are decided by the oracle only (their models are the table models of C01, where a clone is a copy of a value).",
-    technique="Lean 4 theorems (clone = same view) + interleaving oracle on twins + differential correspondence",
+    text="Proof with a checked aliasing tie. Proved (package layer): a document clone holds under every name what the original holds, whatever had been cached, "
+    "edited, replaced or deleted before (clone_equal_at_birth), nothing is left on disk only, saving the clone writes what saving the original writes, a clone of "
+    "a clone too. Proved (ownership heap, OdfModel/Heap): the mutable objects behind the twins are cells each owned by one twin and an operation on a twin "
+    "allocates / writes cells of that twin only; then for EVERY history on any number of twins and EVERY interleaving, what a twin can observe depends on its own "
+    "sub-history only (untouched_twin_unchanged, own_history_only, interleaving_irrelevant), a birth leaves the others as they were, and the model has no step "
+    "reaching an object of another twin. Tie, checked at every run: the live Python objects reachable from the original and from each clone (attribute dicts, "
+    "cache lists and dicts, lxml trees, dicts of parts) are walked after every operation and every read; the allocations and changes seen are replayed on the "
+    "model; an object reachable from two twins, or changed by an operation applied to the other twin, is not a step of the model and is reported. Decided by the "
+    "harness oracle besides: tables after C01 histories (clone, clone of clone), rows, cells, XML parts, documents after C03 histories; cloning leaves the original "
+    "unchanged; equal at birth; 2..6 operations interleaved on original and clone with the untouched twin observed after each one; absolute XPath queries from a "
+    "copy see its own tree only; both twins agree with their own reference (plain grid / ledger) at the end; the package model follows the document histories in two slots.",
+    note=PKG_NOTE + "Equality at birth of element / row / cell / table clones is decided by the oracle (their models are the table models of C01, where a clone is a "
+    "copy of a value). The heap model abstracts contents to fingerprints: it carries ownership and framing, not what an operation computes. The walk follows instance "
+    "dictionaries of odfdo objects, dict / list / set / tuple members and lxml trees to depth 12; objects of other kinds (open files, compiled patterns) are not followed.",
+    technique="Lean 4 theorems (clone = same view; ownership heap: every history, every interleaving) + heap-trace refinement check on the live objects + interleaving oracle on twins + differential correspondence",
     design="5/C10",
 )
 
